@@ -699,3 +699,47 @@ pub mod verif_hooks {
         M128::mul(n, ninv, M128(x), M128(y)).0
     }
 }
+
+// Verification hooks for the 128-bit curve arithmetic (add-only; compiled only with `--cfg yamaquasi_verif`).
+#[cfg(yamaquasi_verif)]
+pub mod verif_hooks_curve {
+    use super::*;
+
+    /// Coordinates are raw Montgomery words.
+    pub fn point(x: u128, y: u128, z: u128) -> Point {
+        Point(M128(x), M128(y), M128(z))
+    }
+    pub fn extpoint(x: u128, y: u128, z: u128, t: u128) -> ExtPoint {
+        ExtPoint(M128(x), M128(y), M128(z), M128(t))
+    }
+    pub fn xyz(p: &Point) -> [u128; 3] {
+        [p.0 .0, p.1 .0, p.2 .0]
+    }
+    pub fn xyzt(p: &ExtPoint) -> [u128; 4] {
+        [p.0 .0, p.1 .0, p.2 .0, p.3 .0]
+    }
+    /// Montgomery form -> ordinary residue.
+    pub fn to_int(c: &Curve, x: u128) -> u128 {
+        M128::mul(c.n, c.ninv, M128(x), M128(1)).0
+    }
+    /// Ordinary residue -> Montgomery form.
+    pub fn from_int(c: &Curve, x: u128) -> u128 {
+        let (_, r2) = M128::r_r2(c.n, c.ninv);
+        M128::mul(c.n, c.ninv, M128(x), r2).0
+    }
+    pub fn dbladd(c: &Curve, p: &Point, q: &ExtPoint) -> Point {
+        c.dbladd(p, q)
+    }
+    pub fn add(c: &Curve, p: &ExtPoint, q: &ExtPoint) -> ExtPoint {
+        c.add(p, q)
+    }
+    pub fn double(c: &Curve, p: &Point) -> Point {
+        c.double(p)
+    }
+    pub fn dblext(c: &Curve, p: &Point) -> ExtPoint {
+        c.dblext(p)
+    }
+    pub fn is_valid(c: &Curve, p: &ExtPoint) -> bool {
+        c.is_valid(p)
+    }
+}
